@@ -27,7 +27,7 @@ func C16(c *run.Ctx) {
 	c.Need("c16_tokens_after_approval", 1)
 	c.Need("c16_refused_polls", 1)
 	c.Need("c16_replays", 1)
-	events := []string{"accept", "reject", "pollR", "pollW", "expire", "tick"}
+	events := []string{"accept", "reject", "pollR", "pollW", "pollWbody", "expire", "tick"}
 	maxLen := 4
 	if !c.Quick() {
 		maxLen = 5
@@ -115,12 +115,19 @@ func C16(c *run.Ctx) {
 						c.Violate(run.Violation{Kind: "alive:expired", Key: "alive:expired user_code", Detail: "user code accepted after its expiry", History: hist})
 					}
 				}
-			case "pollR", "pollW":
+			case "pollR", "pollW", "pollWbody":
 				as := client
-				if ev == "pollW" {
+				if ev != "pollR" {
 					as = wrong
 				}
-				out := poll(as)
+				var out *world.Out
+				if ev == "pollWbody" {
+					// the wrong client authenticates as itself in the header while naming the right client in the body
+					out = w.Token(url.Values{"grant_type": {"urn:ietf:params:oauth:grant-type:device_code"}, "device_code": {d.dc}, "client_id": {client}}, world.Basic(wrong, "secret-of-b"))
+					ev = "pollW"
+				} else {
+					out = poll(as)
+				}
 				ok := out.Err == nil && out.S("access_token") != ""
 				hist = append(hist, fmt.Sprintf("%s => ok=%v %s", ev, ok, world.ErrDetail(out.Err)))
 				st := d.decision
